@@ -5,10 +5,10 @@ META = dict(
     LEVEL="exploration",
     RULE=("forest-walk generated table collections (random parent maps mutated at random breakpoints, "
           "decorated with sites/mutations/metadata) crossed with sample_lists x root_threshold x tracked_samples; "
-          "every tree reached by trees(), reversed, at(x) at left/mid/nextafter(right), at_index, first/last is "
+          "every tree reached by trees(), reversed, at(x) at left/mid/nextafter(right), at_index, first/last and by one reused Tree object swept forward, off the end, backward and re-positioned with first()/last() is "
           "compared view-by-view with {child: parent} computed from the edge rows. A case is distinct by the sha1 "
           "of its full row tuples and non-trivial when it has at least one edge."),
-    REQUIRED=["check_tree:trees()", "check_tree:at", "edge_diffs"],
+    REQUIRED=["check_tree:trees()", "check_tree:at", "check_tree:reused-tree", "edge_diffs"],
     ASSUMPTIONS=ASSUME_COMMON,
     BUDGET={"quick": 45.0, "thorough": 900.0},
 )
